@@ -674,6 +674,75 @@ func c15Cor() []core.Scenario {
 			}
 		}
 	}))
+	// R5: the CALLING coroutine completes while a helper goroutine started by its effect is inside a.YieldFrom(b, x),
+	// past the hand-over to b and before it waits for the answer: the helper must return (zero value), not block
+	for _, fullOps := range []bool{false, true} {
+		fullOps := fullOps
+		out = append(out, c15Scenario(fmt.Sprintf("R5-caller-completes-inside-its-own-yieldfrom-fullops%v", fullOps), "Cor", func(c *core.Ctx, id string) {
+			d := director.Get()
+			finishB := make(chan struct{})
+			b := fpgo.CorNewGenerics[int](func() { <-finishB })
+			b.Start()
+			if fullOps {
+				// b's request channel is full (5 pending requests of other callers): the hand-over itself blocks
+				for k := 0; k < 5; k++ {
+					var other *fpgo.CorDef[int]
+					other = fpgo.CorNewGenerics[int](func() { other.YieldFrom(b, k) })
+					other.Start()
+				}
+				time.Sleep(2 * time.Millisecond)
+			}
+			var gate *director.Gate
+			if !fullOps {
+				gate = d.Park("cor.YieldFrom.sent", 1)
+			}
+			helperDone := make(chan struct{})
+			var helperPanic any
+			leave := make(chan struct{})
+			var a *fpgo.CorDef[int]
+			a = fpgo.CorNewGenerics[int](func() {
+				go func() {
+					defer close(helperDone)
+					helperPanic, _ = core.Catch(func() { a.YieldFrom(b, 99) })
+				}()
+				<-leave
+			})
+			a.Start()
+			if gate != nil {
+				if !gate.WaitArrived(5 * time.Second) {
+					gate.Release()
+					close(leave)
+					close(finishB)
+					c.Inconclusive(id + ": hook never reached")
+					return
+				}
+				c.Count("directed.parks_reached", 1)
+			} else {
+				time.Sleep(3 * time.Millisecond) // the helper blocks in the hand-over
+			}
+			close(leave) // a's effect returns; a.close() runs to completion
+			deadline := time.Now().Add(10 * time.Second)
+			for !a.IsDone() && time.Now().Before(deadline) {
+				time.Sleep(50 * time.Microsecond)
+			}
+			time.Sleep(2 * time.Millisecond)
+			if gate != nil {
+				gate.Release()
+			} else {
+				close(finishB) // b completes: the blocked hand-overs are released
+			}
+			v, dump := core.AwaitOrStuck(helperDone, 2*time.Second, 60*time.Second, d.Total)
+			if helperPanic != nil {
+				c.Violationf("Cor.YieldFrom-vs-own-completion:user-panic:"+core.NormalizePanic(fmt.Sprint(helperPanic)), map[string]any{"scenario": id}, "a.YieldFrom(b, x) on a helper goroutine panics when a completes meanwhile: %v", helperPanic)
+			}
+			if v == "stuck" {
+				c.Violationf("Cor.YieldFrom-vs-own-completion:deadlock", map[string]any{"scenario": id, "goroutines": core.RepoGoroutineSummary(dump)}, "a.YieldFrom(b, x) running on a helper goroutine never returns after a itself completed (request handed to b: nobody will answer a finished coroutine)")
+			}
+			if gate != nil {
+				close(finishB)
+			}
+		}))
+	}
 	return out
 }
 
@@ -799,6 +868,47 @@ func c15Pool() []core.Scenario {
 			}
 			checkHandler(c, id, e)
 		}))
+		// P8: the job queue is closed by somebody else (its owner, or another pool sharing it) while this pool is open
+		for _, who := range []string{"owner", "other-pool"} {
+			who := who
+			out = append(out, c15Scenario("P8-queue-closed-by-"+who+"-"+tag, "WorkerPool", func(c *core.Ctx, id string) {
+				e := mk(closeQueue, 2, 4)
+				e.p.Schedule(func() {})
+				time.Sleep(time.Millisecond)
+				if who == "owner" {
+					e.q.Close()
+				} else {
+					other := worker.NewDefaultWorkerPool(e.q, nil).SetSpawnWorkerDuration(100 * time.Microsecond).SetWorkerSizeMaximum(1).SetWorkerSizeStandBy(1).SetPanicHandler(func(interface{}) {})
+					other.Close() // closes the shared queue
+				}
+				var ran atomic.Int32
+				rep := map[string]any{"scenario": id}
+				for k, call := range []func() error{
+					func() error { return e.p.Schedule(func() { ran.Add(1) }) },
+					func() error { return e.p.ScheduleWithTimeout(func() { ran.Add(1) }, time.Millisecond) },
+					func() error {
+						worker.NewDefaultInvokable[int](e.p, func(int) { ran.Add(1) }).Invoke(1)
+					return worker.NewDefaultInvokable[int](e.p, func(int) { ran.Add(1) }).InvokeWithTimeout(1, time.Millisecond)
+					},
+					func() error { return e.p.Schedule(func() { ran.Add(1) }) },
+				} {
+					var err error
+					pv, where := core.Catch(func() { err = call() })
+					if pv != nil {
+						c.Violationf("WorkerPool:queue-closed-under-open-pool:user-panic:"+core.NormalizePanic(fmt.Sprint(pv)), rep, "the job queue was closed by %s while the pool is open: call #%d (Schedule / ScheduleWithTimeout / Invoke / Schedule) panics in the caller's goroutine: %v (at %s)", who, k, pv, where)
+						break
+					}
+					if err == nil {
+						c.Violationf("WorkerPool:queue-closed-under-open-pool:accepted", rep, "call #%d reported success although the job queue is closed", k)
+					}
+				}
+				time.Sleep(2 * time.Millisecond)
+				if ran.Load() != 0 {
+					c.Violationf("WorkerPool:queue-closed-under-open-pool:job-ran", rep, "%d jobs submitted after the job queue was closed were run", ran.Load())
+				}
+				checkHandler(c, id, e)
+			}))
+		}
 		out = append(out, c15Scenario("P7-after-close-"+tag, "WorkerPool", func(c *core.Ctx, id string) {
 			e := mk(closeQueue, 2, 4)
 			e.p.Schedule(func() {})
